@@ -149,7 +149,18 @@ Calls(z) ==
                                  as \in ArgLists(LinkText, 0, 2), tr \in {<<>>, <<"s">>} }
   \cup { Ex(Url1, tx) : tx \in {<<>>, W("u1"), <<T(<<"u1", "SP", "u2">>)>>, <<It(W("i1"))>>, <<Tp(<<W("t"), W("a1")>>)>>} }
   \cup { Ex(<<"https", ":", "/", "/", "w.org">>, W("u1")) }
-CallPages(z) == { pg \in { Surround(sn, cl) : cl \in Calls(z), sn \in 1..3 } : Len(Render(pg)) % Parts = Part }
+\* calls written over several lines: an argument that ends with a nested call / link and a line break,
+\* followed by an argument whose text would mean something at the start of a line
+MLFirst == << <<Tp(<<W("u"), W("b1")>>), T(<<"NL">>)>>, <<Lk(<<W("l"), W("x1")>>, <<>>), T(<<"NL">>)>>,
+              <<T(<<"k", "=">>), Tp(<<W("u"), W("b1")>>), T(<<"NL">>)>>, <<T(<<"a1", "NL">>)>>,
+              <<Tp(<<W("u"), <<Tp(<<W("v"), W("c1")>>)>>>>), T(<<"NL">>)>> >>
+MLNext == << <<T(<<"*", "SP", "a1">>)>>, <<T(<<"SP", "c1">>)>>, <<T(<<":", "a1">>)>>, <<T(<<"p", "=", "y1">>)>>, <<T(<<"#", "a1">>)>>, <<T(<<";", "a1">>)>> >>
+MLCalls(z) ==
+  { Tp(<<W("t"), MLFirst[i], MLNext[j]>>) : i \in 1..Len(MLFirst), j \in 1..Len(MLNext) }
+  \cup { Tp(<<W("t"), W("a0"), MLFirst[i], MLNext[j]>>) : i \in 1..Len(MLFirst), j \in 1..Len(MLNext) }
+  \cup { Pf(<<"#", "if">>, <<MLFirst[i], MLNext[j]>>) : i \in 1..Len(MLFirst), j \in 1..Len(MLNext) }
+  \cup { Lk(<<<<T(<<"File", ":", "x.png">>)>>, MLFirst[i], MLNext[j]>>, <<>>) : i \in {1, 4, 5}, j \in 1..Len(MLNext) }
+CallPages(z) == { pg \in { Surround(sn, cl) : cl \in Calls(z) \cup MLCalls(z), sn \in 1..3 } : Len(Render(pg)) % Parts = Part }
 
 (* ---------------- the universe ---------------- *)
 \* (the universes take a dummy parameter: TLC evaluates every parameterless constant
